@@ -156,7 +156,7 @@ C20Scen(m, cap, f, e) ==
         extra |-> [expect20 |-> ex @@ [method |-> m, cap |-> cap, fault |-> f]],
         faults |-> fl,
         run |-> [Run("tcp", m, FALSE, 1, 4, 1, e) EXCEPT !.listen_port = IF cap \in {"port_closed", "unreachable"} THEN 0 ELSE 443,
-                                                          !.tcp_block = IF cap = "unreachable" THEN "reject" ELSE IF cap = "addr_mismatch" THEN "src2" ELSE ""],
+                                                          !.tcp_block = IF cap = "unreachable" THEN "reject" ELSE IF cap = "addr_mismatch" THEN "src2" ELSE IF cap = "udp_refused" THEN "noudp" ELSE ""],
         path |-> PathOf([t \in 1..4 |-> IF t >= 3 THEN destReplies ELSE <<[form |-> "te", from |-> R4(t), delay_us |-> 1000 * t]>>])]
 \* the caller's context is cancelled before / while the SACK path connects: a cancellation is not "SACK unavailable" - the request
 \* ends as the policy says or with an error, but never with a SYN trace for a target that supports SACK
